@@ -235,8 +235,10 @@ Definition callback_classes_ok (u : uses_tables) : bool :=
                     end) (u_callback_classes u).
 
 (* the wrapper objects the base class builds (plain_distance, kernel_distance) forward every call to the member
-   function of the role of the callback they wrap: for each initialiser  slot := W(<callback slot s>)  of the
-   implementation base class, every member of W calls only  role_function (slot_role s)  on the wrapped callback *)
+   function of the role of THEIR slot: for each initialiser  slot := W(...)  of the implementation base class, every
+   member of W calls only  role_function (slot_role slot)  on the wrapped callback.  (WHICH callback is wrapped --
+   the one of that same role -- is part of chain_routes: expected_slots says plain_distance = PlainDistance(distance
+   callback), kernel_distance = KernelDistance(kernel callback), however the initialiser spells its argument.) *)
 Fixpoint find_wrapper (ws : list (string * list (string * list string))) (w : string)
   : option (list (string * list string)) :=
   match ws with
@@ -246,16 +248,14 @@ Fixpoint find_wrapper (ws : list (string * list (string * list string))) (w : st
 
 Definition wrapper_init_ok (u : uses_tables) (init : string * expr) : bool :=
   match init with
-  | (slot, EWrap w (EId s)) =>
-    match find_wrapper (u_wrappers u) w, slot_role s, slot_role slot with
-    | Some tb, Some r, Some r' =>
-      kind_eqb r r' &&
+  | (slot, EWrap w _) =>
+    match find_wrapper (u_wrappers u) w, slot_role slot with
+    | Some tb, Some r =>
       negb (match tb with [] => true | _ => false end) &&
       forallb (fun mc => negb (match snd mc with [] => true | _ => false end) &&
                          forallb (String.eqb (role_function r)) (snd mc)) tb
-    | _, _, _ => false
+    | _, _ => false
     end
-  | (_, EWrap _ _) => false
   | _ => true
   end.
 
